@@ -29,6 +29,7 @@ FIRST = {
     "C03-e": "oblig", "C05-e": "oblig", "C07-e": "oblig", "C14-e": "input", "C18-e": "input", "C19-e": "input",
     # round f ("look at the glue")
     "C01-f": "oblig", "C02-f": "input", "C04-f": "oblig", "C08-f": "input", "C09-f": "input", "C11-f": "input", "C12-f": "input", "C16-f": "oblig",
+    "C03-f": "oblig", "C05-f": "oblig", "C06-f": "oblig", "C10-f": "input", "C18-f": "input", "C19-f": "input",
     "C06-e": "input", "C09-e": "input", "C15-e": "oblig", "C01-e": "input", "C08-e": "input", "C10-e": "input", "C12-e": "input",
 }
 
@@ -70,6 +71,9 @@ STRENGTHENED = {
     "C05-e": "authority key identifier forms of the client certificate (key id, name+serial, URI+serial, serial alone, name alone, empty, wrong name) x a certificate that only shares the issuer's serial number (trusted responder certificate / second verified chain) signing the answer",
     "C07-e": "candidate search driven directly with hostile authority key identifiers (every subset of the three fields, every irregular GeneralName, wrong tags, truncations, garbage) x chain shapes; C04 matrix: name without serial, empty SEQUENCE",
     "C01-f": "issuer names that crypto/x509 would not write that way (CN first, one RDN, two OU RDNs, domainComponent, emailAddress, CN twice) x backend x CDP / crl_urls x DER / PEM on the whole validator",
+    "C03-f": "the mode string parsed a second time on the same validator object (every ordered pair of documented modes): what it means must not depend on what the object meant before",
+    "C05-f": "a non-strict validator that has seen an unauthentic / erroneous / malformed answer, then the issuer's genuine 'revoked' (same validator, within the cache lifetime) and a strict validator of the same process with the responder down",
+    "C06-f": "unknown versions written as one content octet (0x02 0x03 0x7f 0x80 0xfe 0xff), with and without crlExtensions; the generator's 'version 255' was a two-octet INTEGER, which the reader does not take for a version field",
     "C04-f": "an end-entity that carries CA:TRUE and cRLSign (a sub-CA certificate presented as client certificate) signing the CRL fetched for it",
     "C16-f": "directed history + corpus: verify_log on disk, unverifiable first list, a genuine list no stored signer vouches for, a forged list, a connection presenting the genuine signer, restart under verify",
     "C15-e": "the run did not end (every refresh panicked or failed slowly, thousands of tick goroutines queued behind the refresh mutex and the harness waited behind them): bounded forced refresh before Close, a harness-wide deadline that writes out what was found and where the run is stuck",
